@@ -3,9 +3,22 @@ no-op when nothing changed). Every target dir lives under /verif/target (git-ign
 import os, subprocess, time
 
 VERIF = os.path.dirname(os.path.dirname(os.path.abspath(__file__)))
+# Registered checks always build from /repo. VERIF_REPO / VERIF_TARGET exist only so that seeded
+# changes can be tried on a scratch worktree while /repo stays untouched (lib/try_mutant.sh).
+REPO = os.environ.get("VERIF_REPO", "/repo")
+TARGET = os.environ.get("VERIF_TARGET", os.path.join(VERIF, "target"))
 HARNESS = os.path.join(VERIF, "harness")
-TARGET = os.path.join(VERIF, "target")
-REPO = "/repo"
+if REPO != "/repo":
+    import shutil
+    _src = os.path.join(TARGET, "harness-src")
+    os.makedirs(TARGET, exist_ok=True)
+    subprocess.run(["rsync", "-a", "--delete", "--exclude", "target", HARNESS + "/", _src + "/"], check=True)
+    _ct = open(os.path.join(_src, "Cargo.toml")).read().replace('"/repo/', '"' + REPO + '/')
+    open(os.path.join(_src, "Cargo.toml"), "w").write(_ct)
+    # the harness includes ../corpus/fens.txt
+    os.makedirs(os.path.join(TARGET, "corpus"), exist_ok=True)
+    shutil.copy(os.path.join(VERIF, "corpus", "fens.txt"), os.path.join(TARGET, "corpus", "fens.txt"))
+    HARNESS = _src
 
 BASE_ENV = {"CARGO_NET_OFFLINE": "true", "CARGO_TERM_COLOR": "never"}
 
@@ -47,7 +60,7 @@ def ensure(what, log):
     if what == "miri":
         # built (interpreted) at run time by the wrapper; make sure the sysroot exists
         ok, msg = _run(["cargo", "+nightly", "miri", "setup"], HARNESS, {"CARGO_TARGET_DIR": f"{TARGET}/miri"}, log, what)
-        return ok, os.path.join(VERIF, "lib", "miri_wv"), msg
+        return ok, os.path.join(VERIF, "lib", "miri_wv"), msg  # (the Miri wrapper always uses /verif/harness)
     return False, "", f"unknown build target {what}"
 
 
